@@ -15,8 +15,8 @@ import FluteModel.Lemmas.ObjRecvProto
     * `no_writer_call_after_terminal` (from C09) is what makes the D17 class impossible.
   MISSING for `push_total` (named): (a) `partition::block_length` does not underflow for `sbn < nb_blocks` (now guaranteed to be the only
   way it is called, D6 repaired) - this is C07 (4), needs `L + E < 2^64`; (b) `total_allocated_blocks_size` / `nb_allocated_blocks` never
-  underflow in `write_blocks` (invariant: they are the sum / count over the allocated blocks of the deque); (c) fuel adequacy of
-  `write_blocks` (measure `len - off`) and of `push_from_cache` (cache length); (d) `decoder_read` terminates: contract on the
+  underflow in `write_blocks` (invariant: they are the sum / count over the allocated blocks of the deque); (c) [now proved: `write_loop_no_hang`, `write_blocks_no_hang`,
+  `cache_loop_no_own_hang`: fuel adequacy of `write_blocks` and `push_from_cache`]; (d) `decoder_read` terminates: contract on the
   decompressor (finite output per input byte).  Each of (a)-(d) is exercised on every run by engine orecv: the model reports
   `PANIC` / `TIMEOUT` exactly where it leaves `.ok`, the implementation runs under catch_unwind + a 5 s watchdog, and the two are compared
   line by line (families mutate, rs2m, cenc-tiny, cenc-empty-block, limits); defects found that way and repaired: D6, D15, D30, D32.
@@ -118,5 +118,90 @@ theorem cache_total (st : St) (p : Pkt) : (cachePkt st p).1.cacheSize < U64 ∨ 
   · split
     · exact .inr rfl
     · left; simp only; omega
+
+/-- the `while` loop of `write_blocks` never runs out of fuel (`blocks.len() + 1`), as long as `BlockWriter::write` returns:
+    every iteration advances `sbn` within the deque (measure `blocks_offset + blocks.len() - sbn`). -/
+theorem write_loop_no_hang (P : Params)
+    (hbw : ∀ st sbn blk, bwWrite P st sbn blk ≠ .error .hang) :
+    ∀ (fuel : Nat) (st : St) (sbn : Nat), st.blocksOffset + st.blocks.length ≤ fuel + sbn →
+      writeLoop P (fuel + 1) st sbn ≠ .error .hang := by
+  intro fuel
+  induction fuel with
+  | zero =>
+    intro st sbn hf
+    unfold writeLoop
+    split
+    · simp
+    · split
+      · simp
+      · rename_i blk hblk
+        have hidx : sbn - st.blocksOffset < st.blocks.length := (List.getElem?_eq_some_iff.mp hblk).1
+        omega
+  | succ n ih =>
+    intro st sbn hf
+    unfold writeLoop
+    split
+    · simp
+    · rename_i hge
+      split
+      · simp
+      · rename_i blk hblk
+        have hidx : sbn - st.blocksOffset < st.blocks.length := (List.getElem?_eq_some_iff.mp hblk).1
+        split
+        · simp
+        · split
+          · rename_i f heq; intro hc; simp at hc; subst hc; exact hbw _ _ _ heq
+          · simp
+          · simp
+          · rename_i st1 heq
+            have hwr := wr_bwWrite _ _ _ _ heq
+            split
+            · simp
+            · split
+              · simp
+              · split
+                · simp
+                · split
+                  · simp
+                  · apply ih
+                    have e1 : st1.blocks = st.blocks := hwr.same.blocks
+                    have e2 : st1.blocksOffset = st.blocksOffset := hwr.off
+                    unfold popBlock
+                    dsimp only
+                    split
+                    · rename_i h0
+                      simp only [e1, e2]
+                      have : st.blocks.tail.length = st.blocks.length - 1 := by simp
+                      omega
+                    · simp only [e1, e2, List.length_set]
+                      omega
+
+/-- `write_blocks` is called with exactly enough fuel -/
+theorem write_blocks_no_hang (P : Params) (hbw : ∀ st sbn blk, bwWrite P st sbn blk ≠ .error .hang)
+    (st : St) (sbn : Nat) : writeBlocks P st sbn ≠ .error .hang := by
+  unfold writeBlocks
+  split
+  · simp
+  · split
+    · simp
+    · split
+      · simp
+      · by_cases h : sbn < st.blocksOffset
+        · unfold writeLoop; simp [h]
+        · exact write_loop_no_hang P hbw _ st sbn (by omega)
+
+/-- `push_from_cache` cannot hang: its loop is a structural recursion over the cache length (model: `cacheLoop` returns at fuel 0). -/
+theorem cache_loop_no_own_hang (P : Params) (fuel : Nat) (st : St)
+    (hp : ∀ s p, pushToBlock P s p ≠ .error .hang) : cacheLoop P fuel st ≠ .error .hang := by
+  induction fuel generalizing st with
+  | zero => simp [cacheLoop]
+  | succ n ih =>
+    unfold cacheLoop
+    split
+    · simp
+    · split
+      · rename_i f heq; intro hc; simp at hc; subst hc; exact hp _ _ heq
+      · simp
+      · exact ih _
 
 end Flute.Props.C04.Obj
